@@ -27,6 +27,7 @@
 #include <random>
 #include <chrono>
 #include <thread>
+#include <stdexcept>
 
 /// DataSketches namespace
 namespace datasketches {
@@ -86,16 +87,23 @@ constexpr uint8_t lg_size_from_count(uint32_t n, double load_factor) {
 }
 
 // stream helpers to hide casts
+// A read that hits the end of the stream (or any other failure) throws right away, so no reader goes on
+// with an indeterminate value. A stream that was already in a failed state when it was handed over
+// yields zeros, which the preamble checks of every sketch reject.
 template<typename T>
 static inline T read(std::istream& is) {
-  T value;
+  T value = T();
+  const bool was_good = is.good();
   is.read(reinterpret_cast<char*>(&value), sizeof(T));
+  if (was_good && !is.good()) throw std::runtime_error("error reading from std::istream");
   return value;
 }
 
 template<typename T>
 static inline void read(std::istream& is, T* ptr, size_t size_bytes) {
+  const bool was_good = is.good();
   is.read(reinterpret_cast<char*>(ptr), size_bytes);
+  if (was_good && !is.good()) throw std::runtime_error("error reading from std::istream");
 }
 
 template<typename T>
@@ -120,9 +128,7 @@ T byteswap(T value) {
 
 template<typename T>
 static inline T read_big_endian(std::istream& is) {
-  T value;
-  is.read(reinterpret_cast<char*>(&value), sizeof(T));
-  return byteswap(value);
+  return byteswap(read<T>(is));
 }
 
 // wrapper for iterators to implement operator-> returning temporary value
